@@ -9,6 +9,7 @@ from vlib import evlog, instr_mp, models
 from vlib import ref_quadtree as rq
 
 PROPERTY = "C19"
+REPLAY_REPEATS = 10
 LEVEL = "fault_enumeration"
 JOBS = 12
 CASE_TIMEOUT = 200
